@@ -216,8 +216,9 @@ class Bit(Interp):
 class Real(Interp):
     """exact real semantics. side: list of definedness facts that were assumed (divisor != 0, radicand >= 0)."""
 
-    def __init__(self, prefix=''):
+    def __init__(self, prefix='', argmap=None):
         super().__init__()
+        self.argmap = argmap or {}
         self.defs = []      # constraints defining auxiliary variables (sqrt)
         self.side = []      # definedness assumptions
         self.ufs = {}
@@ -254,7 +255,7 @@ class Real(Interp):
                 raise ModeError('REAL: constant %s' % p)
             return z3.RealVal(str(p))
         if op == 'arg':
-            return z3.Real(a[0])
+            return self.argmap.get(a[0], z3.Real(a[0]))
         if op == 'fadd': return self.rnd(x, a[0] + a[1], 'add')
         if op == 'fsub': return self.rnd(x, a[0] - a[1], 'add')
         if op == 'fmul': return self.rnd(x, a[0] * a[1], 'mul')
